@@ -211,7 +211,7 @@ impl TexlangState for VS {
         if FIRST_ERR_AT.with(|f| f.get()) < 0 {
             FIRST_ERR_AT.with(|f| f.set(OUT.with(|o| o.borrow().len()) as i64));
         }
-        let located = format!("{recoverable_error}").contains(">>>");
+        let located = is_located(&recoverable_error, &format!("{recoverable_error}"));
         let r = errormode::recoverable_error_hook(self, recoverable_error);
         if RECOV.with(|v| v.borrow().is_some()) {
             // the interaction mode at the time of the error (tracked by the mode-command wrappers)
@@ -407,6 +407,13 @@ fn texlang_font_tag() -> command::Tag {
     texlang_font::get_font::<VS>().cmd().tag().unwrap()
 }
 
+/// Does the error carry a source location?  Decided on the structure of the traced error (a trace for the
+/// token at fault, for the end of the input, or a non-empty stack of commands being executed); the marker of
+/// the present text layout is accepted as well.
+pub fn is_located(e: &texlang::error::TracedTexError, rendered: &str) -> bool {
+    !e.token_traces.is_empty() || e.end_of_input_trace.is_some() || !e.stack_trace.is_empty() || rendered.contains(">>>")
+}
+
 #[derive(Debug, Clone)]
 pub enum Outcome {
     Ok,
@@ -436,7 +443,13 @@ pub fn run_src<HH: vm::Handlers<VS>>(vm: &mut vm::VM<VS>, name: &str, src: &str,
     // rendering the error is part of what must not panic, so it happens inside the catch
     let r = std::panic::catch_unwind(std::panic::AssertUnwindSafe(|| {
         let _ = vm.push_source(name.to_string(), src.to_string());
-        vm.run::<HH>().map_err(|e| (format!("{e}"), e.error.title()))
+        vm.run::<HH>().map_err(|e| {
+            let rendered = format!("{e}");
+            // the location travels inside the rendered text as a marker line: how an error is laid out is the
+            // repository's business, whether it carries a location is decided on the structure
+            let mark = if is_located(&e, &rendered) && !rendered.contains(">>>") { "\n >>> (located)" } else { "" };
+            (format!("{rendered}{mark}"), e.error.title())
+        })
     }));
     BUDGET.with(|b| b.set(u64::MAX));
     let outcome = match r {
